@@ -1,0 +1,108 @@
+//go:build verif
+
+// Package verifhook holds verification-only instrumentation. With the `verif`
+// build tag, Jitter perturbs the completion order of pipeline workers so that
+// order-restoring writers and per-index result slots are actually exercised.
+package verifhook
+
+import (
+	"os"
+	"runtime"
+	"strconv"
+	"sync"
+	"sync/atomic"
+	"time"
+)
+
+var (
+	once      sync.Once
+	seed      uint64
+	enabled   bool
+	maxMicros uint64
+	calls     uint64
+	delayed   uint64
+	mu        sync.Mutex
+	lastIdx   = map[string]int{}
+	inverted  uint64
+)
+
+func setup() {
+	s := os.Getenv("VERIF_JITTER_SEED")
+	if s == "" {
+		return
+	}
+	v, err := strconv.ParseUint(s, 10, 64)
+	if err != nil {
+		return
+	}
+	seed = v
+	enabled = true
+	maxMicros = 300
+	if m := os.Getenv("VERIF_JITTER_MAX_US"); m != "" {
+		if mv, err := strconv.ParseUint(m, 10, 64); err == nil {
+			maxMicros = mv
+		}
+	}
+}
+
+func mix(x uint64) uint64 {
+	x += 0x9e3779b97f4a7c15
+	x = (x ^ (x >> 30)) * 0xbf58476d1ce4e5b9
+	x = (x ^ (x >> 27)) * 0x94d049bb133111eb
+	return x ^ (x >> 31)
+}
+
+// SetSeed (re)arms the jitter from inside a process (used by the in-process harness).
+func SetSeed(s uint64, maxUs uint64) {
+	once.Do(func() {})
+	mu.Lock()
+	seed = s
+	enabled = true
+	maxMicros = maxUs
+	lastIdx = map[string]int{}
+	mu.Unlock()
+}
+
+// Disable switches the jitter off again.
+func Disable() {
+	once.Do(func() {})
+	mu.Lock()
+	enabled = false
+	mu.Unlock()
+}
+
+// Stats reports (calls, calls that slept, observed order inversions at a site).
+func Stats() (uint64, uint64, uint64) {
+	return atomic.LoadUint64(&calls), atomic.LoadUint64(&delayed), atomic.LoadUint64(&inverted)
+}
+
+// Jitter is called by a pipeline worker just before it sends record idx
+// downstream from the named site. A pseudo-random function of (seed, site, idx)
+// decides whether to yield or sleep, so that completion order differs from
+// arrival order in a reproducible way.
+func Jitter(site string, idx int) {
+	once.Do(setup)
+	if !enabled {
+		return
+	}
+	atomic.AddUint64(&calls, 1)
+	h := seed
+	for i := 0; i < len(site); i++ {
+		h = mix(h ^ uint64(site[i]))
+	}
+	h = mix(h ^ uint64(idx))
+	switch h & 3 {
+	case 0:
+	case 1:
+		runtime.Gosched()
+	default:
+		atomic.AddUint64(&delayed, 1)
+		time.Sleep(time.Duration((h>>8)%(maxMicros+1)) * time.Microsecond)
+	}
+	mu.Lock()
+	if last, ok := lastIdx[site]; ok && idx < last {
+		atomic.AddUint64(&inverted, 1)
+	}
+	lastIdx[site] = idx
+	mu.Unlock()
+}
